@@ -64,9 +64,41 @@ def expandArange (runs : List (List Nat)) : List Nat :=
 def maskedArr (a : Array Rat) (m : Array Bool) : List Rat :=
   (List.range a.size).filterMap (fun p => if m.getD p false then some (a.getD p 0) else none)
 
-def statsJson (xs ys : List Rat) : Json :=
-  jObj [("n", jNat xs.length), ("cov", jRat (cov xs ys)), ("var_x", jRat (varFast xs)), ("var_y", jRat (varFast ys)),
-        ("mean_xy", jRat (mean (mulL xs ys))), ("mean_x", jRat (mean xs)), ("mean_y", jRat (mean ys))]
+/-- the numbers behind one Pearson coefficient, each computed once -/
+structure PStats where
+  n : Nat
+  cov : Rat
+  vx : Rat
+  vy : Rat
+  mxy : Rat
+  mx : Rat
+  my : Rat
+
+/-- the integer values of a list of rationals that are all integers (checked by casting back) -/
+def intsOf (l : List Rat) : Option (List Int) :=
+  let is := l.map (·.num)
+  if is.map (fun (i : Int) => (i : Rat)) == l then some is else none
+
+/-- `cov`, `var` (as `cov x x`, theorem `var_fast`) and the three means; through integer sums when both lists are
+integer-valued (theorem `cov_int`: the same numbers) -/
+def pstats (xs ys : List Rat) : PStats :=
+  match intsOf xs, intsOf ys with
+  | some xi, some yi =>
+    let mx := meanI xi
+    let my := meanI yi
+    let mxy := meanI (List.zipWith (· * ·) xi yi)
+    { n := xs.length, cov := mxy - mx * my, vx := meanI (List.zipWith (· * ·) xi xi) - mx * mx,
+      vy := meanI (List.zipWith (· * ·) yi yi) - my * my, mxy := mxy, mx := mx, my := my }
+  | _, _ =>
+    let mx := mean xs
+    let my := mean ys
+    let mxy := mean (mulL xs ys)
+    { n := xs.length, cov := mxy - mx * my, vx := mean (mulL xs xs) - mx * mx, vy := mean (mulL ys ys) - my * my,
+      mxy := mxy, mx := mx, my := my }
+
+def statsJson (s : PStats) : Json :=
+  jObj [("n", jNat s.n), ("cov", jRat s.cov), ("var_x", jRat s.vx), ("var_y", jRat s.vy),
+        ("mean_xy", jRat s.mxy), ("mean_x", jRat s.mx), ("mean_y", jRat s.my)]
 
 def handle (op : String) (req : Json) : R Json := do
   match op with
@@ -199,7 +231,7 @@ def handle (op : String) (req : Json) : R Json := do
     | .null =>
       fields := fields ++ [("spec", Json.null), ("applied", Json.null)]
       match other, ref with
-      | some o, some rf => fields := fields ++ [("stats_ref", statsJson (maskedArr o md) (maskedArr rf md))]
+      | some o, some rf => fields := fields ++ [("stats_ref", statsJson (pstats (maskedArr o md) (maskedArr rf md)))]
       | _, _ => pure ()
     | j =>
       let od ← bigData j (n0 * n1)
@@ -223,8 +255,10 @@ def handle (op : String) (req : Json) : R Json := do
         let xs := maskedArr o md
         let ys := maskedArr rf md
         let yo := maskedArr od md
-        fields := fields ++ [("stats_ref", statsJson xs ys), ("stats_out", statsJson xs yo),
-          ("out_gt_ref", jBool (rGt (cov xs yo) (varFast xs * varFast yo) (cov xs ys) (varFast xs * varFast ys))),
+        let sr := pstats xs ys
+        let so := pstats xs yo
+        fields := fields ++ [("stats_ref", statsJson sr), ("stats_out", statsJson so),
+          ("out_gt_ref", jBool (rGt so.cov (so.vx * so.vy) sr.cov (sr.vx * sr.vy))),
           ("out_same_as_ref", jBool (yo == ys))]
       | _, _ => pure ()
     pure (jObj fields)
